@@ -136,7 +136,12 @@ class Gen:
             if self.cfg.huge:
                 n = 258 + n % 72
         out = []
+        # occasionally the very same object occurs several times in a row (a stream repeating its last reading)
+        repeat = self.cfg.odd_items and n >= 2 and self.ch.chance(1, 12)
         for _ in range(n):
+            if repeat and out and self.ch.chance(1, 3):
+                out.append(out[-1])
+                continue
             truth = True
             if falsy:
                 truth = not self.ch.chance(1, 3)
